@@ -77,6 +77,11 @@ func c02Run(c *Ctx) {
 		{"L1", GenOpts{OneGate: true, LeafSet: 1}, 1, nil},
 	}
 	layers = append(layers, sweepLayer{"scale", GenOpts{Scale: true, ScaleThorough: c.Thorough()}, 0, nil})
+	if c.Thorough() {
+		layers = append(layers, rootedLayers(false, nil)...) // two search operators below the stage (the thorough tier's own L2 is rooted at the slot)
+	} else {
+		layers = append(layers, sweepLayer{"rooted:$search", GenOpts{OneGate: true, LeafSet: 1, Slots: []int{4}, RootStage: "$search"}, 1, nil})
+	}
 	fsets := flagsQ
 	if c.Thorough() {
 		layers = append(layers, sweepLayer{"L2", GenOpts{OneGate: true, LeafSet: 1}, 2, nil})
@@ -254,7 +259,7 @@ func c02Run(c *Ctx) {
 func init() {
 	register(&PropDef{
 		ID: "C02", Level: "exploration",
-		Rule:        "every line skeleton of G at <=1 non-default production (thorough <=2) x placeholder-mode flag sets; for each skeleton the explorer enumerates the re-assignments of its SECRET leaves within their class: fillers jointly re-assigned or not x each focused literal taking every alternative of its class alphabet (21 ordinary strings incl. empty, 1.3 KB, JSON metacharacters, '@' without e-mail shape, output-shaped texts, plus up to 8 texts taken from the line itself - its user field names, a dotted path of them, collection, database, namespace, an operator, the verb; 4 e-mails; 4 $date / $oid / base64 contents; 6 numbers under N; both booleans under B), up to 2 leaves deviating; oracle = byte-identical output. distinct = skeleton lines with at least one SECRET leaf" + scaleRule + streamLenRule,
+		Rule:        "every line skeleton of G at <=1 non-default production (thorough <=2) x placeholder-mode flag sets; for each skeleton the explorer enumerates the re-assignments of its SECRET leaves within their class: fillers jointly re-assigned or not x each focused literal taking every alternative of its class alphabet (21 ordinary strings incl. empty, 1.3 KB, JSON metacharacters, '@' without e-mail shape, output-shaped texts, plus up to 8 texts taken from the line itself - its user field names, a dotted path of them, collection, database, namespace, an operator, the verb; 4 e-mails; 4 $date / $oid / base64 contents; 6 numbers under N; both booleans under B), up to 2 leaves deviating; oracle = byte-identical output. distinct = skeleton lines with at least one SECRET leaf" + scaleRule + streamLenRule + rootedRule,
 		Assumptions: []string{"class membership follows DESIGN.md 3.0: borderline e-mail shapes are never used as members of a class", "encrypt and selective modes are outside the property"},
 		Run:         c02Run,
 	})
